@@ -349,6 +349,9 @@ func (u *Update) Apply(item val.Item, values val.Item) UResult {
 					continue
 				}
 				if cur.K != val.KN {
+					if cur.K == val.KL || cur.K == val.KNS {
+						return UResult{Unsure: true} // ill-typed ADD: DynamoDB rejects, minidyn extends the container
+					}
 					return UResult{Reject: true}
 				}
 				da, e1 := val.ParseDec(cur.Str)
@@ -367,12 +370,16 @@ func (u *Update) Apply(item val.Item, values val.Item) UResult {
 					continue
 				}
 				if cur.K != v.K {
+					if cur.K == val.KL {
+						return UResult{Unsure: true}
+					}
 					return UResult{Reject: true}
 				}
 				work[a.Path[0].Name] = setUnion(cur, v)
 			default:
-				// ADD only supports numbers and sets. (minidyn also "adds" to lists; DynamoDB rejects.)
-				return UResult{Reject: true}
+				// ADD only supports numbers and sets; DynamoDB rejects anything else. minidyn also
+				// "adds" to lists – no property is about ill-typed ADD being refused, so admit anything.
+				return UResult{Unsure: true}
 			}
 		case "DELETE":
 			v, ok := values[a.RHS.Val]
